@@ -1,4 +1,5 @@
 import FpgoVerif.Proofs.C14Inv
+import FpgoVerif.Proofs.C14Progress
 import FpgoVerif.Gen.Skeletons
 import FpgoVerif.Gen.C15Bodies
 /-! Property theorems for C14 — coroutines pair every YieldFrom with the matching YieldRef, in order, per caller.
@@ -39,6 +40,24 @@ theorem C14_caller_complete {gen cap script sv s} (h : Reach gen cap script sv s
   rw [hp, hq] at h1
   rw [hr, hf] at h2
   exact ⟨by simpa using h1, by simpa using h2⟩
+
+/-- a caller is inside a YieldFrom (`waiting`) iff exactly one item of its is on the way — its request queued in
+    opCh, or taken and not yet answered, or the answer sitting in its resultCh; otherwise none is: no request or
+    answer is duplicated on the way and none disappears while its caller waits -/
+theorem C14_outstanding {gen cap script sv s} (h : Reach gen cap script sv s) (i : Nat) :
+    (chOf i s.opCh).length + (inflY i s.inflight).length + (s.resCh i).length = if s.waiting i = true then 1 else 0 :=
+  inv2_reach h i
+
+/-- no value is lost to a stuck system: while any caller still has a request to make or is waiting for an answer,
+    some atom is enabled (the target has YieldRefs left = the `take`/`answer` atoms exist; opCh has capacity ≥ 1).
+    Together with `C14_caller_complete` every maximal run ends with all callers complete. -/
+theorem C14_progress {gen cap script sv s} (h : Reach gen cap script sv s) (hcap : 0 < cap)
+    (hw : ∃ i, s.pending i ≠ [] ∨ s.waiting i = true) : ∃ a s', step gen cap s a = some s' :=
+  progress (inv2_reach h) hcap hw
+
+/-- non-vacuity of `C14_progress`: the initial state of a one-caller system has a request to make -/
+example : ∃ i, (init (mkScript [2]) none).pending i ≠ [] ∨ (init (mkScript [2]) none).waiting i = true :=
+  ⟨0, Or.inl (by decide)⟩
 
 /-- non-vacuity: one caller with script [11, 12], generator "fixed": the run completes with both answers -/
 example : (let s := runRR (shapeGen "fixed" false) 5 1 40 (init (mkScript [2]) none)
